@@ -13,6 +13,7 @@ import (
 
 	"github.com/artela-network/aspect-core/djpm"
 	"github.com/ethereum/go-ethereum/common"
+	"github.com/ethereum/go-ethereum/core/types"
 	ethvm "github.com/ethereum/go-ethereum/core/vm"
 	"github.com/ethereum/go-ethereum/params"
 	"github.com/holiman/uint256"
@@ -239,7 +240,7 @@ func VerifHarness_RelStep(lo, hi, fork uint64) {
 	mw := verifU64("memwords")
 	verifAssume(mw <= verifParam("memwords"))
 	memA := verifBytes("mem", mw*32, 96)
-	memG := common.CopyBytes(memA)
+	memG := verifCloneBytes(memA)
 	self, callerAddr := verifAddr("self"), verifAddr("caller")
 	gas := verifU64("gas")
 	callValue := verifBig("callvalue")
@@ -308,6 +309,7 @@ func VerifHarness_RelStep(lo, hi, fork uint64) {
 
 	// ---------------- go-ethereum v1.12.0
 	dbG := newVerifStateDB()
+	dbG.codes = dbA.codes // both worlds hold the same contract code
 	lgG := &verifLoggerG{rec: &verifRecorder{}}
 	cfgG := ethvm.Config{}
 	if debug {
@@ -368,4 +370,158 @@ func VerifHarness_RelStep(lo, hi, fork uint64) {
 func verifForkTable(fork uint64) *JumpTable {
 	t, _ := verifTable(fork)
 	return t
+}
+
+func init() {
+	verifHarnesses["VerifHarness_RelFrame"] = VerifHarness_RelFrame
+}
+
+// VerifHarness_RelFrame: one frame routine (0 Call, 1 CallCode, 2 DelegateCall,
+// 3 StaticCall, 4 Create, 5 Create2) on the same arbitrary arguments and world in
+// the artela EVM - tracer and call tree active, join points on with no Aspect bound
+// or off - and in the go-ethereum v1.12.0 EVM; the callee is the same arbitrary
+// callee on both sides.
+func VerifHarness_RelFrame(kind, fork uint64) {
+	cfg := verifChainConfig(fork)
+	rnd := verifHash("random")
+	getHash := func(n uint64) common.Hash { return common.Hash{} }
+	debug := verifBool("debug")
+	jp := verifBool("joinpoints.on")
+	grand, callerAddr, addr := verifAddr("grandparent"), verifAddr("caller"), verifAddr("addr")
+	if kind <= 3 && !verifBool("target.mayprecompile") {
+		verifAssume(addr[0] != 0)
+	}
+	// 0x64-0x66 are Artela's own precompiles: not part of "standard opcodes and standard precompiles"
+	verifAssume(addr != common.BytesToAddress([]byte{100}) && addr != common.BytesToAddress([]byte{101}) && addr != common.BytesToAddress([]byte{102}))
+	value := verifBig("value")
+	parentValue := verifBig("parentvalue")
+	gas := verifU64("gas")
+	inLen := verifU64("inlen")
+	verifAssume(inLen <= 8)
+	input := verifBytes("input", inLen, 8)
+	salt := verifU256("salt")
+	var draws []verifDraw
+	draw := func(i int) verifDraw {
+		for len(draws) <= i {
+			d := verifDraw{used: verifU64("callee.used"), kind: verifU64("callee.err")}
+			verifAssume(d.kind <= 2)
+			rl := verifU64("callee.retlen")
+			verifAssume(rl <= 4)
+			d.ret = verifBytes("callee.ret", rl, 4)
+			draws = append(draws, d)
+		}
+		return draws[i]
+	}
+	// ---------------- artela
+	dbA := newVerifStateDB()
+	lgA := &verifLoggerA{rec: &verifRecorder{}}
+	cfgA := Config{}
+	if debug {
+		cfgA.Tracer = lgA
+	}
+	djpm.VerifSetAspect(&verifProvider{bound: false})
+	evmA := NewEVM(BlockContext{CanTransfer: verifCanTransfer, Transfer: verifTransfer, GetHash: getHash,
+		BlockNumber: big.NewInt(0), Difficulty: big.NewInt(0), BaseFee: big.NewInt(0), Random: &rnd},
+		TxContext{GasPrice: big.NewInt(1)}, dbA, cfg, cfgA)
+	evmA.IsExecuteJP = jp
+	nA := 0
+	verifRunHook = func(in *EVMInterpreter, ctx context.Context, c *Contract, inp []byte, ro bool) ([]byte, error) {
+		d := draw(nA)
+		nA++
+		if d.used > c.Gas {
+			c.Gas = 0
+		} else {
+			c.Gas -= d.used
+		}
+		in.evm.StateDB.SetState(c.Address(), common.Hash{9}, common.BytesToHash(inp))
+		in.evm.StateDB.AddLog(&types.Log{Address: c.CallerAddress})
+		return d.ret, verifErrKind(d.kind)
+	}
+	callerA := NewContract(AccountRef(grand), AccountRef(callerAddr), parentValue, 1)
+	var retA []byte
+	var leftA uint64
+	var errA error
+	var newA common.Address
+	switch kind {
+	case 0:
+		retA, leftA, errA = evmA.Call(verifCtx, callerA, addr, input, gas, value)
+	case 1:
+		retA, leftA, errA = evmA.CallCode(verifCtx, callerA, addr, input, gas, value)
+	case 2:
+		retA, leftA, errA = evmA.DelegateCall(verifCtx, callerA, addr, input, gas)
+	case 3:
+		retA, leftA, errA = evmA.StaticCall(verifCtx, callerA, addr, input, gas)
+	case 4:
+		retA, newA, leftA, errA = evmA.Create(verifCtx, callerA, input, gas, value)
+	default:
+		retA, newA, leftA, errA = evmA.Create2(verifCtx, callerA, input, gas, value, &salt)
+	}
+	// ---------------- go-ethereum v1.12.0
+	dbG := newVerifStateDB()
+	dbG.codes = dbA.codes
+	lgG := &verifLoggerG{rec: &verifRecorder{}}
+	cfgG := ethvm.Config{}
+	if debug {
+		cfgG.Tracer = lgG
+	}
+	evmG := ethvm.NewEVM(ethvm.BlockContext{
+		CanTransfer: func(db ethvm.StateDB, a common.Address, v *big.Int) bool { return verifCanTransfer(nil, a, v) },
+		Transfer: func(db ethvm.StateDB, from, to common.Address, v *big.Int) {
+			verifTransfer(db.(*verifStateDB), from, to, v)
+		},
+		GetHash: getHash, BlockNumber: big.NewInt(0), Difficulty: big.NewInt(0), BaseFee: big.NewInt(0), Random: &rnd},
+		ethvm.TxContext{GasPrice: big.NewInt(1)}, dbG, cfg, cfgG)
+	nG := 0
+	ethvm.VerifRunHook = func(in *ethvm.EVMInterpreter, c *ethvm.Contract, inp []byte, ro bool) ([]byte, error) {
+		d := draw(nG)
+		nG++
+		if d.used > c.Gas {
+			c.Gas = 0
+		} else {
+			c.Gas -= d.used
+		}
+		dbG.SetState(c.Address(), common.Hash{9}, common.BytesToHash(inp))
+		dbG.AddLog(&types.Log{Address: c.CallerAddress})
+		var e error
+		switch d.kind {
+		case 1:
+			e = ethvm.ErrExecutionReverted
+		case 2:
+			e = ethvm.ErrOutOfGas
+		}
+		return d.ret, e
+	}
+	callerG := ethvm.NewContract(ethvm.AccountRef(grand), ethvm.AccountRef(callerAddr), parentValue, 1)
+	var retG []byte
+	var leftG uint64
+	var errG error
+	var newG common.Address
+	switch kind {
+	case 0:
+		retG, leftG, errG = evmG.Call(callerG, addr, input, gas, value)
+	case 1:
+		retG, leftG, errG = evmG.CallCode(callerG, addr, input, gas, value)
+	case 2:
+		retG, leftG, errG = evmG.DelegateCall(callerG, addr, input, gas)
+	case 3:
+		retG, leftG, errG = evmG.StaticCall(callerG, addr, input, gas)
+	case 4:
+		retG, newG, leftG, errG = evmG.Create(callerG, input, gas, value)
+	default:
+		retG, newG, leftG, errG = evmG.Create2(callerG, input, gas, value, &salt)
+	}
+	verifReach("both-ran")
+	if nA > 0 {
+		verifReach("callee-ran")
+	}
+	verifAssert(verifSameErr(errA, errG), "C01: same success or failure class")
+	verifAssert(verifBytesEq(retA, retG), "C01: same return data")
+	verifAssert(newA == newG, "C01: same created address")
+	verifAssert(leftA == leftG, "C02: same gas handed back by the frame")
+	verifAssert(nA == nG, "C01: the callee's code runs on both sides or on neither")
+	verifCompareWorlds(dbA, dbG, "C01")
+	if debug {
+		verifCompareTraces(lgA, lgG, "C18")
+		verifCompareTraces(lgA, lgG, "C01")
+	}
 }
